@@ -120,6 +120,8 @@ THEOREMS = [
     "IrVerif.PassInfra.C14_fix_inline",
     "IrVerif.PassInfra.C14_inline_valid",
     "IrVerif.PassInfra.C14_cse_weight_mono",
+    "IrVerif.PassInfra.C14_measure_cse",
+    "IrVerif.PassInfra.C14_rounds_cse",
     "IrVerif.PassInfra.C14_keeps_sorted_add",
     "IrVerif.PassInfra.C14_wf_remove_unused_nodes",
     "IrVerif.PassInfra.C14_wf_identity_elimination",
@@ -170,7 +172,7 @@ class _Timeout(BaseException):
     under test nor an `except Exception` of the harness may swallow it)"""
 
 
-_ITEM_CPU_S = float(__import__("os").environ.get("C14_ITEM_CPU_S", "60"))    # one item takes milliseconds to ~1 s
+_ITEM_CPU_S = float(__import__("os").environ.get("C14_ITEM_CPU_S", "20"))    # one item takes milliseconds to ~1 s
 _ITEM_WALL_S = float(__import__("os").environ.get("C14_ITEM_WALL_S", "900"))  # a blocked (not spinning) call; generous under load
 
 
@@ -2450,7 +2452,7 @@ def _flags2_special(seed: int):
     if r.random() < 0.5:
         # equal nodes all of whose outputs are graph outputs
         src = r.choice(inputs)
-        for _ in range(r.randint(2, 3)):
+        for _ in range(r.choice([2, 3, 3, 4, 5])):
             n = named(ir.node("Relu", [src]))
             nodes.append(n)
             outs.append(n.outputs[0])
@@ -2462,6 +2464,28 @@ def _flags2_special(seed: int):
 def _cse_weight(model) -> int:
     """`cseW`: an Identity node with one output weighs 1, every other node 1 + its number of outputs (main graph)."""
     return sum(1 if (n.op_type == "Identity" and n.domain == "" and len(n.outputs) == 1) else 1 + len(n.outputs) for n in model.graph)
+
+
+def _cse_depth(model) -> int:
+    """`cseDepth`: total Identity-chain depth of the one-input one-output Identity nodes of the main graph, in node order
+    (`y = Identity(x)` is one deeper than `x`; every other node defines values of depth 0)."""
+    d: dict = {}
+    total = 0
+    for n in model.graph:
+        if n.op_type == "Identity" and n.domain == "" and len(n.inputs) == 1 and n.inputs[0] is not None and len(n.outputs) == 1:
+            k = d.get(id(n.inputs[0]), 0) + 1
+            d[id(n.outputs[0])] = k
+            total += k
+        else:
+            for o in n.outputs:
+                d[id(o)] = 0
+    return total
+
+
+def _cse_mu(model) -> int:
+    """`cseMu` = W*(W*W+1) + (W*W - depth): the measure of C14_measure_cse"""
+    w = _cse_weight(model)
+    return w * (w * w + 1) + max(w * w - _cse_depth(model), 0)
 
 
 def _sub_inits(model) -> int:
@@ -2501,6 +2525,7 @@ def flags2_case(part: Part, reqs: list, seed: int) -> None:
             continue
         mu0 = measure(model) if measure else None
         w0 = _cse_weight(model)
+        dep0, cmu0 = _cse_depth(model), _cse_mu(model)
         sorted0 = is_sorted(model)
         nodes0 = list(model.graph)  # (kept alive: id() is compared below)
         ids0 = {id(n) for n in nodes0}
@@ -2509,12 +2534,14 @@ def flags2_case(part: Part, reqs: list, seed: int) -> None:
             after = c05.Encoder().model(model)
             mu1 = measure(model) if measure else None
             w1 = _cse_weight(model)
+            dep1, cmu1 = _cse_depth(model), _cse_mu(model)
             sorted1 = is_sorted(model)
             # "stalled" rewrite of CSE: a one-output Identity node went away and an Identity node came in
             gone_identity = sum(1 for n in nodes0 if n.graph is None and n.op_type == "Identity" and n.domain == "" and len(n.outputs) == 1)
             inserted = sum(1 for n in model.graph if id(n) not in ids0)
             res2 = mk()(model)
             after2 = c05.Encoder().model(model)
+            cmu2 = _cse_mu(model)
         except c05.Unencodable:
             part.count("flags2:unencodable-after")
             continue
@@ -2537,6 +2564,11 @@ def flags2_case(part: Part, reqs: list, seed: int) -> None:
             part.fail("flags2/cse/measure-not-decreasing", f"modified=True, no Identity inserted, but #nodes went {mu0} -> {mu1}", case)
         if base == "cse" and res.modified and (inserted == 0 or gone_identity == 0) and not w1 < w0:
             part.fail("flags2/cse/weight-not-decreasing", f"modified=True, no Identity node replaced by an Identity node, but the weight went {w0} -> {w1}", case)
+        if base == "cse" and res.modified and not cmu1 < cmu0:
+            # C14_measure_cse on the real objects (the hypothesis validModel is evaluated by the driver: see _compare)
+            case = {**case, "cse_mu": [cmu0, cmu1]}
+        if base == "cse" and res2.modified and not cmu2 < cmu1:
+            case = {**case, "cse_mu2": [cmu1, cmu2]}
         if sorted0 and not sorted1:
             part.fail(f"flags2/{base}/order", "a topologically ordered model is no longer ordered", case)
         obs = {"flag": bool(res.modified), "canon": c1, "flag2": bool(res2.modified), "canon2_same": c2 == c1,
@@ -2545,6 +2577,7 @@ def flags2_case(part: Part, reqs: list, seed: int) -> None:
             obs["before"], obs["after"] = mu0, mu1
         if base == "cse":
             obs["w_before"], obs["w_after"] = w0, w1
+            obs["depth_before"], obs["depth_after"], obs["mu_before"], obs["mu_after"], obs["mu_after2"] = dep0, dep1, cmu0, cmu1, cmu2
         reqs.append(({"m": "passinfra.flags2", "model": mj, "pass": name}, obs, {"model": "flags2", **case}))
         part.case(["flags2", seed, name], bool(res.modified), case if seed % 211 == 0 else None,
                   **{f"flags2_{base}": f"{source}:flag={bool(res.modified)}", f"flags2_{base}_second": bool(res2.modified)})
@@ -2968,8 +3001,13 @@ class _Part(Part):
 def _worker(job):
     kind, items = job
     part, reqs = _Part(), []
+    hung: dict = {}
     for it in items:
         _FP_KEEP.clear()
+        if hung.get(_nonterm_sig(kind, it), 0) >= 2:
+            # this stream already ran into the guard twice in this chunk: do not spend the guard on every further item
+            part.count("skipped-after-nontermination:" + _nonterm_sig(kind, it))
+            continue
         try:
           with _guard():
               if kind == "infra":
@@ -3014,6 +3052,7 @@ def _worker(job):
               elif kind == "kpass":
                   kpass_case(part, reqs, it)
         except _Timeout as e:
+            hung[_nonterm_sig(kind, it)] = hung.get(_nonterm_sig(kind, it), 0) + 1
             part.fail(_nonterm_sig(kind, it), f"a call of the implementation did not return ({e}) in stream {kind}", {"item": str(it)[:300], "stream": kind})
         except Exception as e:  # noqa: BLE001 - harness bug: surface it, never hide
             import traceback
@@ -3082,7 +3121,7 @@ def _compare(ctx: Ctx, req: dict, obs: dict, info: dict, out: dict) -> None:
         lean = {"flag": out.get("flag"), "flag2": out.get("flag2"), "canon2_same": out.get("idem"),
                 "sorted": out.get("sorted"), "sorted_after": out.get("sorted_after")}
         impl = {k: obs[k] for k in lean}
-        for k in ("before", "after", "w_before", "w_after"):
+        for k in ("before", "after", "w_before", "w_after", "depth_before", "depth_after", "mu_before", "mu_after", "mu_after2"):
             if k in obs:
                 lean[k], impl[k] = out.get(k), obs[k]
         if lean != impl:
@@ -3095,7 +3134,14 @@ def _compare(ctx: Ctx, req: dict, obs: dict, info: dict, out: dict) -> None:
             if out.get("idnb") and (obs["flag2"] or not obs["canon2_same"]):
                 # C14_fix_identity on the real objects
                 ctx.fail("flags2/identity/not-idempotent", "well-formed model: applied to its own result the pass reports True / changes it", info)
+        if base == "cse" and ("cse_mu" in info or "cse_mu2" in info):
+            # C14_measure_cse on the real objects: a modifying round on a well-formed model (this branch: `valid`) must
+            # lower cseMu = W*(W*W+1) + (W*W - depth)
+            ctx.fail("flags2/cse/mu-not-decreasing", f"modified=True on a well-formed model but cseMu went {info.get('cse_mu') or info.get('cse_mu2')}", info)
         if base == "cse" and out.get("flag"):
+            ctx.count(f"flags2:cse:all-rewrites-stalled={out.get('stalled') == out.get('count')}")
+            if not out.get("mu_after") < out.get("mu_before") or (out.get("flag2") and not out.get("mu_after2") < out.get("mu_after")):
+                ctx.disagree("flags2 cse: the model's cseMu did not drop in a modifying round (C14_measure_cse says it must)", info, [out.get("mu_before"), out.get("mu_after"), out.get("mu_after2")], None)
             ctx.count(f"flags2:cse:hyp-no-identity-inserted={out.get('inserted') == 0}")
             ctx.count(f"flags2:cse:hyp-no-stalled-identity={out.get('stalled') == 0}")
             if out.get("stalled") == 0 and not out.get("w_after") < out.get("w_before"):
